@@ -67,10 +67,15 @@ type NodeService interface {
 
 type BaseNodeService struct {
 	sync.Mutex
-	ctx                      context.Context
-	userName                 string
-	pubKey                   ed25519.PublicKey
-	stateMu                  sync.RWMutex
+	ctx      context.Context
+	userName string
+	pubKey   ed25519.PublicKey
+	stateMu  sync.RWMutex
+	// roundMu serialises the read-modify-write of a round by the poller
+	// (ProcessMessage) with the one local API request that updates a round
+	// itself, finishing a reinitialisation: each loads the round, changes it and
+	// saves it, and interleaved they lose one of the two updates
+	roundMu                  sync.Mutex
 	state                    state.State
 	storage                  storage.Storage
 	keyStore                 keystore.KeyStore
@@ -106,6 +111,9 @@ func (s *BaseNodeService) GetLogger() logger.Logger {
 }
 
 func (s *BaseNodeService) ProcessMessage(message storage.Message) error {
+	s.roundMu.Lock()
+	defer s.roundMu.Unlock()
+
 	if fsm.State(message.Event) == types.ReinitDKG {
 		if err := s.reinitDKG(message); err != nil {
 			return fmt.Errorf("failed to reinitDKG")
@@ -289,20 +297,8 @@ func (s *BaseNodeService) executeOperation(operation *types.Operation) error {
 		}
 	} else {
 		//for now only ReinitDKG can have the OperationProcessed event
-		dkgID := operation.DKGIdentifier
-		fsm, err := s.fsmService.GetFSMInstance(string(dkgID), false)
-		if err != nil {
-			return fmt.Errorf("failed to get fsm instance during operation processing: %w", err)
-		}
-		fsm.FSMDump().Payload.DKGProposalPayload.PubPolyBz = operation.ExtraData
-		dump, err := fsm.Dump()
-		if err != nil {
-			return fmt.Errorf("failed to dump fsm instance during operation processing: %w", err)
-		}
-
-		err = s.fsmService.SaveFSM(operation.DKGIdentifier, dump)
-		if err != nil {
-			return fmt.Errorf("failed to save fsm dump during operation processing: %w", err)
+		if err := s.finishReinit(operation); err != nil {
+			return err
 		}
 	}
 
@@ -310,6 +306,30 @@ func (s *BaseNodeService) executeOperation(operation *types.Operation) error {
 		return fmt.Errorf("failed to DeleteOperation: %w", err)
 	}
 
+	return nil
+}
+
+// finishReinit writes the public polynomial the airgapped machine answered
+// with into the reinitialised round.
+func (s *BaseNodeService) finishReinit(operation *types.Operation) error {
+	s.roundMu.Lock()
+	defer s.roundMu.Unlock()
+
+	dkgID := operation.DKGIdentifier
+	fsm, err := s.fsmService.GetFSMInstance(string(dkgID), false)
+	if err != nil {
+		return fmt.Errorf("failed to get fsm instance during operation processing: %w", err)
+	}
+	fsm.FSMDump().Payload.DKGProposalPayload.PubPolyBz = operation.ExtraData
+	dump, err := fsm.Dump()
+	if err != nil {
+		return fmt.Errorf("failed to dump fsm instance during operation processing: %w", err)
+	}
+
+	err = s.fsmService.SaveFSM(operation.DKGIdentifier, dump)
+	if err != nil {
+		return fmt.Errorf("failed to save fsm dump during operation processing: %w", err)
+	}
 	return nil
 }
 
